@@ -165,6 +165,26 @@ def run(ctx):
                 if ' '.join(frags) != line:
                     ctx.fail('the last-column fragments of the conll format do not concatenate to the AUTO line',
                              dict(desc, conll=conll), fingerprint=['conll-fragments'])
+            # a tree read from a treebank-style line (its two part-of-speech columns differ): the conll
+            # fragments of THAT tree concatenate to ITS AUTO line, and both printers agree with the model
+            import re as _re
+            bank = _re.sub(r'\(<L (\S+) (\S+) (\S+) ', lambda m: f'(<L {m.group(1)} {m.group(2)} {m.group(3)}-ORIG ', line)
+            if bank != line:
+                try:
+                    bt = read_one(tmpdir, bank, lang)[0].tree
+                    b_auto, b_conll = auto_of(bt), conll_of(bt)
+                except Exception as e:
+                    ctx.fail(f'a treebank-style AUTO line (different tags in the two part-of-speech columns) cannot be read and '
+                             f'printed: {type(e).__name__}', dict(desc, bank_line=bank), fingerprint=['bank-line-raise'])
+                else:
+                    ctx.evaluations += 1
+                    benc = T.enc_tree(bt)
+                    cases.append(('auto', 'auto ' + benc, 'ok ' + enc_str(b_auto), dict(desc, bank_line=bank)))
+                    cases.append(('conll', 'conll ' + benc, 'ok ' + enc_str(b_conll), dict(desc, bank_line=bank)))
+                    if ' '.join(l.split('\t')[-1] for l in b_conll.split('\n')) != b_auto:
+                        ctx.fail('for a tree read from a treebank-style line the last-column fragments of the conll format do not '
+                                 'concatenate to its AUTO line', dict(desc, bank_line=bank, auto=b_auto, conll=b_conll),
+                                 fingerprint=['conll-fragments', 'bank'])
             if len(t.tokens) >= 2:
                 ctx.nontrivial_add(line)
             if T.deep_state(t) != before:
